@@ -2,7 +2,7 @@
 (***************************************************************************)
 (* Import resolution over a package tree (C18).                             *)
 (*                                                                         *)
-(* The tree:  base  defines  alpha, beta, _hid  (optionally __all__ =        *)
+(* The tree:  base  defines  alpha, beta, Path, _hid  (optionally __all__ =  *)
 (*            ["alpha"]);                                                     *)
 (*            mid   takes names from base in one of several forms and        *)
 (*                  defines gamma itself;                                     *)
@@ -51,17 +51,24 @@ Names(ns) == {p[1] : p \in ns}
 Get(ns, n) == (CHOOSE p \in ns : p[1] = n)[2]
 Bind(ns, more) == {p \in ns : p[1] \notin Names(more)} \cup more          \* later bindings win
 
-BaseNS == {<<"alpha", Def("base", "alpha")>>, <<"beta", Def("base", "beta")>>, <<"_hid", Def("base", "_hid")>>}
+\* "Path" is a name the tool has a guess for (pathlib.Path) when it finds it undefined: here it is base's own function
+BaseNS == {<<"alpha", Def("base", "alpha")>>, <<"beta", Def("base", "beta")>>, <<"_hid", Def("base", "_hid")>>,
+           <<"Path", Def("base", "Path")>>}
 Star(ns, all) == IF all = "none" THEN {p \in ns : Public(p[1])} ELSE {p \in ns : p[1] = all}
 
 \* what `form` binds in the importing module, given the namespace of the imported module `src` (named srcname)
 \* the names a "from" import asks for are the function names the source really has
-Wanted(src) == Names(src) \cap {"alpha", "beta", "gamma", "al", "bl"}
+Wanted(src) == Names(src) \cap {"alpha", "beta", "gamma", "al", "bl", "first", "Path"}
 Taken(form, src, srcname, all, own) ==
     CASE form = "from"   -> {<<n, Get(src, n)>> : n \in Wanted(src)}
       [] form = "alias"  -> {<<(IF n = "alpha" THEN "al" ELSE IF n = "al" THEN "bl" ELSE n), Get(src, n)>> : n \in Wanted(src)}
       [] form = "star"   -> Star(src, all)
       [] form = "module" -> {<<srcname, Mod(srcname)>>}
+      \* `from src import alpha as first, beta as alpha, ...`: the name alpha now means the source's beta
+      [] form = "swap"   -> IF {"alpha", "beta"} \subseteq Wanted(src)
+                            THEN {<<"first", Get(src, "alpha")>>, <<"alpha", Get(src, "beta")>>}
+                                 \cup {<<n, Get(src, n)>> : n \in Wanted(src) \ {"alpha", "beta", "first"}}
+                            ELSE {<<n, Get(src, n)>> : n \in Wanted(src)}
       [] form = "redef"  -> Bind({<<n, Get(src, n)>> : n \in Wanted(src)},
                                  IF "alpha" \in Wanted(src) THEN {<<"alpha", Def(own, "alpha")>>} ELSE {})
       [] OTHER -> {}
@@ -89,7 +96,7 @@ Reachable(c) ==
          [] OTHER -> {}
 
 Cases == [ball : BaseAlls, mid : MidForms, top : TopForms, client : ClientForms, variant : Variants, pkg : Pkgs,
-          uses : {u \in SUBSET {"alpha", "beta", "gamma", "delta", "al", "bl", "zeta", "c_alpha", "c_beta", "c_gamma", "c_delta", "c_al", "c_bl"} :
+          uses : {u \in SUBSET {"alpha", "beta", "gamma", "delta", "al", "bl", "first", "zeta", "c_first", "c_alpha", "c_beta", "c_gamma", "c_delta", "c_al", "c_bl"} :
                       u # {} /\ Cardinality(u) <= MaxUses}]
 Sensible(c) == /\ c.uses \subseteq Names(Reachable(c))
                /\ (c.pkg # "flat" => c.mid # "module")         \* `import pkg.impl` inside the package __init__ is a different story
@@ -100,7 +107,12 @@ Sensible(c) == /\ c.uses \subseteq Names(Reachable(c))
 Resolve(c) == {p \in Reachable(c) : p[1] \in c.uses}
 
 VARIABLE c
-Init == c \in {x \in Cases : Sensible(x)}
+\* (the same set as {x \in Cases : Sensible(x)}, enumerated from the reachable names instead of filtered out of all subsets)
+Shapes == [ball : BaseAlls, mid : MidForms, top : TopForms, client : ClientForms, variant : Variants, pkg : Pkgs]
+WithUses(sh, u) == [ball |-> sh.ball, mid |-> sh.mid, top |-> sh.top, client |-> sh.client, variant |-> sh.variant, pkg |-> sh.pkg, uses |-> u]
+Init == \E sh \in Shapes : \E u \in {v \in SUBSET Names(Reachable(sh)) : v # {} /\ Cardinality(v) <= MaxUses} :
+            /\ c = WithUses(sh, u)
+            /\ Sensible(c)
 Next == UNCHANGED c
 Spec == Init /\ [][Next]_c
 
